@@ -190,6 +190,10 @@ def to_val(pv, st=None):
     if isinstance(pv, PExc):
         if pv.val is None: raise Unsupported('exception object without identity used as a value')
         return pv.val
+    if isinstance(pv, (PClosure, PBound)):
+        # a function object used as a value: an opaque callable with its own identity
+        if getattr(pv, '_ident', None) is None: pv._ident = fresh('closure', IntSort())
+        return Val.Opq(pv._ident)
     if isinstance(pv, PSet) and pv.ekind == 'val':
         k = mkFS(pv.arr)
         if st is not None: st.assume(fs_c(k) == pv.arr)
